@@ -103,6 +103,13 @@ def materialize_cfg(stp):
     return os.path.join(SPEC, stp["cfg"])
 
 
+def jtmp():
+    """SANY unpacks the standard modules into java.io.tmpdir at every start: keep that under work/, not in /tmp."""
+    d = os.path.join(WORK, "jtmp.%d" % os.getpid())
+    os.makedirs(d, exist_ok=True)
+    return d
+
+
 def run_tlc(module, cfg, use_cache=True, extra_args=(), env_extra=None, timeout=1500, workers=None, tag=None, cfg_path=None):
     os.makedirs(os.path.join(WORK, "tlc"), exist_ok=True)
     cfg_path = cfg_path or os.path.join(SPEC, cfg)
@@ -116,7 +123,7 @@ def run_tlc(module, cfg, use_cache=True, extra_args=(), env_extra=None, timeout=
         m["out"] = out
         return m
     metadir = os.path.join(WORK, "tlc", "meta.%s.%d" % (name, os.getpid()))
-    cmd = ["timeout", str(timeout), "java", "-XX:+UseParallelGC", "-Xmx8g", "-Xss256m", "-cp", TLA_CP, "tlc2.TLC",
+    cmd = ["timeout", str(timeout), "java", "-Djava.io.tmpdir=" + jtmp(), "-XX:+UseParallelGC", "-Xmx8g", "-Xss256m", "-cp", TLA_CP, "tlc2.TLC",
            "-workers", str(workers or TLC_WORKERS), "-metadir", metadir, "-cleanup", "-noGenerateSpecTE",
            "-config", cfg_path] + list(extra_args) + [module + ".tla"]
     env = dict(os.environ)
@@ -247,7 +254,7 @@ def run_negative(prop, only_portable):
 def tlc_trace(module, cfg, trace_file, timeout=1200, prop=None):
     """TLC trace validation: accepts iff every recorded event is a step of the specification."""
     metadir = os.path.join(WORK, "tlc", "meta.trace.%s.%d" % (module, os.getpid()))
-    cmd = ["timeout", str(timeout), "java", "-XX:+UseParallelGC", "-Xmx6g", "-Xss1g", "-Dtlc2.tool.queue.IStateQueue=StateDeque",
+    cmd = ["timeout", str(timeout), "java", "-Djava.io.tmpdir=" + jtmp(), "-XX:+UseParallelGC", "-Xmx6g", "-Xss1g", "-Dtlc2.tool.queue.IStateQueue=StateDeque",
            "-cp", TLA_CP, "tlc2.TLC", "-workers", "1", "-metadir", metadir, "-cleanup", "-noGenerateSpecTE", "-config", cfg, module + ".tla"]
     t0 = time.time()
     r = subprocess.run(cmd, cwd=SPEC, stdout=subprocess.PIPE, stderr=subprocess.STDOUT, text=True, env=dict(os.environ, TRACE=trace_file, **({"PROP": prop} if prop else {})))
@@ -633,3 +640,5 @@ def main(argv):
     except ToolError as e:
         print("TOOL-ERROR property=%s %s" % (prop, e))
         return 2
+    finally:
+        shutil.rmtree(os.path.join(WORK, "jtmp.%d" % os.getpid()), ignore_errors=True)
